@@ -11,8 +11,9 @@
     groups = row changes of the committed work per commit, in order, projected by filter / ids-only),
     NoStale, DiffSound (replaying the committed changes over the initial rows gives the committed
     rows), Quiescent; negative controls DropRolledBack, GroupPerCommit, FilterTables, IdsOnly.
-(B) every session TLC generates (all sessions of <= 2 statements in <= 2 requests; thorough: also all
-    one-request sessions of 3 statements) and seeded random longer sessions (4..9 statements, 3 rowids,
+(B) every session TLC generates (all sessions of <= 2 statements in <= 2 requests, all one-request
+    sessions of <= 4 statements over {insert, multi-row insert, BEGIN, COMMIT, ROLLBACK, SAVEPOINT,
+    RELEASE, ROLLBACK TO}; thorough: also all one-request sessions of 3 statements) and seeded random longer sessions (4..9 statements, 3 rowids,
     expectations computed by TLC from the same spec) are concretised over typed columns (INTEGER
     rowid alias / implicit rowid, INTEGER, REAL, TEXT, BLOB, untyped; NULLs, 64-bit extremes, empty and
     long texts/blobs) and run on a REAL database through db.Request and db.Execute with the REAL
@@ -21,12 +22,19 @@
     dumped through a second connection at every commit hook (group replayed over the rows before the
     commit must give the rows after it: rowid, operation, before/after values with storage classes),
     (3) through cdc/json marshalling; a subset runs through a one-node store with Store.EnableCDC.
+    Outside the spec's alphabet, judged by the shadow rows only: statements changing thousands of rows
+    (one group / several groups) and schema changes (CREATE TABLE, ADD / RENAME COLUMN) in the same
+    transaction, request or an earlier request than the rows written.
 (C) the observed groups are validated by TraceCDCEvents.tla (one line per session and mode)."""
 import json, os, threading, vlib
 LEVEL = "model_checking"
 TECHNIQUE = "TLA+ model of CDC event production (TLC exhaustive, 4 negative controls); spec-generated and random sessions replayed on the real db/store hooks, judged by the spec, a shadow row diff and a trace spec"
 
 SWITCHES = ("DropRolledBack", "GroupPerCommit", "FilterTables", "IdsOnly")
+ACTIONS = {"ins": "DoIns", "insm": "DoInsMany", "upd": "DoUpd", "updall": "DoUpdAll", "updfail": "DoUpdFail", "updkey": "DoUpdKey",
+           "del": "DoDel", "delall": "DoDelAll", "repl": "DoReplace", "upsert": "DoUpsert", "failprep": "DoFailPrep",
+           "begin": "DoTxCtl", "commit": "DoTxCtl", "rollback": "DoTxCtl",
+           "savepoint": "DoSpCtl", "release": "DoSpCtl", "rollbackto": "DoSpCtl"}
 
 
 def _parallel(jobs):
@@ -58,8 +66,7 @@ def run(ctx):
         return [vlib.tlc_neg(ctx, "CDCEvents", "CDCEvents_neg_%s.cfg" % sw, expect="Exact", workers=1) for sw in SWITCHES]
 
     def models():
-        out = [vlib.tlc(ctx, "CDCEvents", "CDCEvents_cov.cfg", workers=1, timeout=3000),                     # per-action counts
-               vlib.tlc(ctx, "CDCEvents", "CDCEvents_mc.cfg", workers=3, timeout=3000, coverage=False)]
+        out = [vlib.tlc(ctx, "CDCEvents", ctx.pick("CDCEvents_mc.cfg", "CDCEvents_mc3.cfg"), workers=3, timeout=3000, coverage=False)]
         if ctx.thorough:
             out.append(vlib.tlc(ctx, "CDCEvents", "CDCEvents_mc4.cfg", workers=4, timeout=3400, coverage=False, heap="12g"))
         return out
@@ -70,13 +77,13 @@ def run(ctx):
         tr = os.path.join(ctx.scratch, name + ".trace.ndjson")
         vlib.write_nd(inp, cases)
         p = ctx.run_harness(["cdcev-replay", "-in", inp, "-out", out, "-trace", tr, "-every", str(every),
-                             "-tracemax", str(tracemax)], timeout=3000)
+                             "-tracemax", str(tracemax)] + (["-bulk", str(ctx.pick(2000, 20000))] if name == "rand" else []), timeout=3000)
         st = json.loads(p.stdout.strip().splitlines()[-1])
         return {"stat": st["stat"], "samples": st["samples"], "mism": vlib.read_nd(out), "trace": vlib.read_nd(tr), "cases": cases}
 
     def gen_pipeline():
         cases = []
-        for cfg in (["CDCEvents_gen2.cfg"] + (["CDCEvents_gen3.cfg"] if ctx.thorough else [])):
+        for cfg in (["CDCEvents_gen2.cfg", "CDCEvents_gen4c.cfg"] + (["CDCEvents_gen3.cfg"] if ctx.thorough else [])):
             cs, r = vlib.tlc_cases(ctx, "CDCEvents", cfg, timeout=3000)
             cases += cs
         if len(cases) < 1000:
@@ -103,17 +110,29 @@ def run(ctx):
 
     res = _parallel([("negs", negs), ("models", models), ("gen", gen_pipeline), ("rand", rand_pipeline)])
 
-    for i, r in enumerate(res["models"]):
+    for r in res["models"]:
         if r["violated"]:
             raise vlib.Undecided("design model CDCEvents/%s violates %s (spec defect, not a code verdict)\n%s"
                                  % (r["cfg"], r["violated"], r["out"][-4000:]))
-        if i == 0:
-            dead = [a for a, c in r["actions"].items() if c == 0]
-            if dead or len(r["actions"]) < 17:
-                raise vlib.Undecided("vacuous actions in CDCEvents/%s: %s %s" % (r["cfg"], dead, sorted(r["actions"])))
         ctx.add("states", r["distinct"])
         ctx.add("transitions", r["generated"])
-        ctx.cov.setdefault("tlc_models", []).append({k: r[k] for k in ("module", "cfg", "distinct", "generated", "depth", "wall_s", "actions")})
+        ctx.cov.setdefault("tlc_models", []).append({k: r[k] for k in ("module", "cfg", "distinct", "generated", "depth", "wall_s")})
+    # vacuity: how often each action of the spec was taken in the behaviours TLC enumerated (the generated
+    # sessions ARE the behaviours of CDCEvents.tla within the generator bounds; -coverage is too slow here)
+    acts = {a: 0 for a in ACTIONS.values()}
+    acts.update({"StartRequest": 0, "EndRequest": 0, "Skipped": 0})
+    for c in res["gen"]["cases"]:
+        acts["StartRequest"] += len(c["sess"])
+        acts["EndRequest"] += len(c["sess"])
+        acts["Skipped"] += c["sk"]
+        for rq in c["sess"]:
+            for st in rq["s"]:
+                acts[ACTIONS[st["op"]]] += 1
+    acts["DoIns"] -= acts["Skipped"]        # skipped statements are recorded as the canonical insert
+    dead = [a for a, n in acts.items() if n <= 0]
+    if dead:
+        raise vlib.Undecided("vacuous actions in CDCEvents: %s" % dead)
+    ctx.cov["actions_taken_in_enumerated_sessions"] = acts
 
     gen_cases, rnd_cases = res["gen"]["cases"], res["rand"]["cases"]
     mism = res["gen"]["mism"] + res["rand"]["mism"]
